@@ -305,7 +305,7 @@ pub fn run(ctx: &Ctx) -> &'static str {
     ctx.explore(
         "history",
         "timed histories of earned/direct/global ACKs, NAKs and bursts, recovery ticks, RTT samples, resets on one real SrtlaConnection, both modes; invariant after every op; non-trivial = window touched 1000/60000, or fast-recovery toggled, or >=3 op kinds within 1 s of virtual time",
-        ctx.tier.pick(20_000, 400_000),
+        ctx.tier.pick(60_000, 600_000),
         || strategy(max_ops),
         |_| check,
     );
